@@ -1,4 +1,162 @@
-(* C16 - placeholder while the model is being tied *)
-From GV Require Import Base.Prelude Types.Scalars.
-Example C16_example : serialize_int (fun _ => None) (PBool true) = COk (PInt 1%Z).
-Proof. reflexivity. Qed.
+(* C16 - leaf results are serialised within the specification's value domains.
+   Theorems only; proofs live in Types/ScalarsProps.v.  Model: Types/Scalars.v.
+
+   Every theorem is universally quantified over the four oracles
+     pi : text -> option Z        int(s)       (None = ValueError)
+     pf : text -> option pyfloat  float(s)     (None = ValueError)
+     fs : pyfloat -> text         str(x)
+     md : N                       sys.get_int_max_str_digits()
+   and over all Python values of the universe [pyval] (ints unbounded, floats exact dyadics
+   or nan/inf, strings, bytes, lists, dicts, opaque objects, None, Undefined). *)
+From GV Require Import Base.Prelude Types.Scalars Types.ScalarsProps.
+
+Local Open Scope Z_scope.
+
+(* Int: an integer within 32 bits *)
+Theorem C16_int_range : forall pi pf fs md v o,
+  serialize pi pf fs md SInt v = COk o -> exists z, o = PInt z /\ - 2 ^ 31 <= z <= 2 ^ 31 - 1.
+Proof. intros pi pf fs md v o. exact (serialize_in_domain pi pf fs md SInt v o). Qed.
+Print Assumptions C16_int_range.
+
+(* Float: a finite number (the int 0/1 for a bool, else a finite float), never nan/inf *)
+Theorem C16_float_finite : forall pi pf fs md v o,
+  serialize pi pf fs md SFloat v = COk o ->
+  (exists z, o = PInt z /\ (z = 0 \/ z = 1)) \/ (exists n m e, o = PFloat (FFin n m e)).
+Proof. intros pi pf fs md v o. exact (serialize_in_domain pi pf fs md SFloat v o). Qed.
+Print Assumptions C16_float_finite.
+
+(* every scalar: the emitted value lies in the type's domain (String/ID text, Boolean a bool) *)
+Theorem C16_types : forall pi pf fs md sc v o,
+  serialize pi pf fs md sc v = COk o -> in_domain sc o.
+Proof. exact serialize_in_domain. Qed.
+Print Assumptions C16_types.
+
+(* ... or else a field error: there is no third outcome *)
+Theorem C16_errors_only_otherwise : forall pi pf fs md sc v,
+  serialize pi pf fs md sc v = CErr \/
+  exists o, serialize pi pf fs md sc v = COk o /\ in_domain sc o.
+Proof. exact serialize_domain_or_error. Qed.
+Print Assumptions C16_errors_only_otherwise.
+
+(* no silent precision loss, int -> Float: accepted exactly when the int is a binary64 value
+   (|z| = m * 2^k with m < 2^53, |z| < 2^1024), and then the float emitted has exactly value z *)
+Theorem C16_no_precision_loss_int_to_float : forall pi pf fs md z,
+  (forall o, serialize pi pf fs md SFloat (PInt z) = COk o ->
+     o = PFloat (float_of_int z) /\ f_int_value (float_of_int z) = Some z /\ binary64_int z)
+  /\ (binary64_int z -> serialize pi pf fs md SFloat (PInt z) = COk (PFloat (float_of_int z))).
+Proof.
+  intros. split; [apply float_of_int_exact | apply float_of_int_complete].
+Qed.
+Print Assumptions C16_no_precision_loss_int_to_float.
+
+(* float -> Int and number -> ID: only integral floats, the integer emitted is the exact value;
+   an int passes through Int unchanged *)
+Theorem C16_no_precision_loss_to_int : forall pi pf fs md,
+  (forall f o, serialize pi pf fs md SInt (PFloat f) = COk o ->
+     exists z, o = PInt z /\ f_int_value f = Some z)
+  /\ (forall z o, serialize pi pf fs md SInt (PInt z) = COk o -> o = PInt z)
+  /\ (forall f o, serialize pi pf fs md SID (PFloat f) = COk o ->
+     exists z s, f_int_value f = Some z /\ int_str md z = Some s /\ o = PStr s)
+  /\ (forall z o, serialize pi pf fs md SID (PInt z) = COk o ->
+     exists s, int_str md z = Some s /\ o = PStr s).
+Proof.
+  intros. split; [apply int_of_float_exact|]. split; [apply int_of_int_same|].
+  split; intros x o H; exact (id_of_number_exact pi pf fs md _ o H).
+Qed.
+Print Assumptions C16_no_precision_loss_to_int.
+
+(* [f_int_value] is the exact value of the dyadic: meaning of the two statements above *)
+Theorem C16_f_int_value_exact : forall n m e z,
+  f_int_value (FFin n m e) = Some z ->
+  (0 <= e /\ z = signed n (Z.of_N m * 2 ^ e)) \/
+  (e < 0 /\ Z.of_N m = Z.abs z * 2 ^ (- e) /\ z = signed n (Z.abs z)).
+Proof. exact f_int_value_exact. Qed.
+Print Assumptions C16_f_int_value_exact.
+
+(* a value emitted by a scalar is accepted back by the same scalar's input coercion, with the
+   same meaning (identical, or the float with the same exact value for the int 0/1 of Float) *)
+Theorem C16_reaccepted : forall pi pf fs md sc v o,
+  serialize pi pf fs md sc v = COk o ->
+  exists o', coerce_input md sc o = COk o' /\ same_meaning o o'.
+Proof. exact serialize_reaccepted. Qed.
+Print Assumptions C16_reaccepted.
+
+(* enum: the result is one of the declared value names, namely of a member whose internal value
+   (its name, if it has none) equals the resolver's value by Python == *)
+Theorem C16_enum_declared_name : forall e v o,
+  enum_output e v = COk o ->
+  exists name val, o = PStr name /\ In (name, val) e /\ In name (map fst e) /\
+    (pyeq (lookup_key name val) v = true \/ pyeq val v = true).
+Proof.
+  intros e v o H. destruct (enum_output_declared e v o H) as [n [E I]].
+  destruct (enum_output_member e v o H) as [name [val [-> [A B]]]].
+  inversion E; subst. exists n, val. auto.
+Qed.
+Print Assumptions C16_enum_declared_name.
+
+Theorem C16_enum_reaccepted : forall e v o,
+  NoDup (map fst e) -> enum_output e v = COk o ->
+  exists name val, o = PStr name /\ enum_input e o = COk val /\
+    (pyeq (lookup_key name val) v = true \/ pyeq val v = true).
+Proof. exact enum_reaccepted. Qed.
+Print Assumptions C16_enum_reaccepted.
+
+(* complete_value on a leaf field: null for None/Undefined, else exactly the coercer's outcome;
+   the "coercer returned None" TypeError is unreachable for built-in scalars and enums *)
+Theorem C16_complete_leaf_scalar : forall pi pf fs md sc v,
+  match complete_leaf (serialize pi pf fs md sc) v with
+  | COk o => (is_null v = true /\ o = PNone)
+             \/ (is_null v = false /\ serialize pi pf fs md sc v = COk o /\ in_domain sc o)
+  | CErr => is_null v = false /\ serialize pi pf fs md sc v = CErr
+  end.
+Proof. exact complete_leaf_scalar. Qed.
+Print Assumptions C16_complete_leaf_scalar.
+
+Theorem C16_complete_leaf_enum : forall e v,
+  match complete_leaf (enum_output e) v with
+  | COk o => (is_null v = true /\ o = PNone)
+             \/ (is_null v = false /\ exists name, o = PStr name /\ In name (map fst e))
+  | CErr => is_null v = false /\ enum_output e v = CErr
+  end.
+Proof. exact complete_leaf_enum. Qed.
+Print Assumptions C16_complete_leaf_enum.
+
+(* ------------------------------------------------------------------ non-vacuity *)
+Local Close Scope Z_scope.
+Section Examples.
+  Let pi : text -> option Z := fun _ => Some 1000%Z.          (* int("1_000") *)
+  Let pf : text -> option pyfloat := fun _ => Some (FFin false 125 3%Z).  (* float("1e3") *)
+  Let fs : pyfloat -> text := fun _ => [49; 46; 53].         (* "1.5" *)
+  Let md : N := 4300%N.
+
+  Example C16_ex_int_of_float :
+    serialize pi pf fs md SInt (PFloat (FFin true 3 1%Z)) = COk (PInt (-6)%Z).
+  Proof. reflexivity. Qed.
+  Example C16_ex_int_out_of_range : serialize pi pf fs md SInt (PInt (2 ^ 31)%Z) = CErr.
+  Proof. reflexivity. Qed.
+  Example C16_ex_int_of_fraction : serialize pi pf fs md SInt (PFloat (FFin false 3 (-1)%Z)) = CErr.
+  Proof. reflexivity. Qed.
+  Example C16_ex_float_of_string :
+    serialize pi pf fs md SFloat (PStr [49; 101; 51]) = COk (PFloat (FFin false 125 3%Z)).
+  Proof. reflexivity. Qed.
+  Example C16_ex_float_2_53_plus_1 : serialize pi pf fs md SFloat (PInt (2 ^ 53 + 1)%Z) = CErr.
+  Proof. vm_compute. reflexivity. Qed.
+  Example C16_ex_float_2_53_plus_2 :
+    serialize pi pf fs md SFloat (PInt (2 ^ 53 + 2)%Z) = COk (PFloat (FFin false (2 ^ 53 + 2) 0%Z)).
+  Proof. vm_compute. reflexivity. Qed.
+  Example C16_ex_float_nan : serialize pi pf fs md SFloat (PFloat FNan) = CErr.
+  Proof. reflexivity. Qed.
+  Example C16_ex_id_of_int : serialize pi pf fs md SID (PInt (-120)%Z) = COk (PStr [45; 49; 50; 48]).
+  Proof. vm_compute. reflexivity. Qed.
+  Example C16_ex_string_of_list : serialize pi pf fs md SString (PList []) = CErr.
+  Proof. reflexivity. Qed.
+  (* True == 1 == 1.0: the first member with an equal value wins; unhashable values are scanned *)
+  Example C16_ex_enum :
+    let e := [([65], PInt 1%Z); ([66], PBool true); ([67], PList [PFloat (FFin false 1 0%Z)]); ([68], PNone)] in
+    enum_output e (PFloat (FFin false 1 0%Z)) = COk (PStr [65])
+    /\ enum_output e (PBool true) = COk (PStr [65])
+    /\ enum_output e (PList [PInt 1%Z]) = COk (PStr [67])
+    /\ enum_output e (PStr [68]) = COk (PStr [68])
+    /\ enum_output e (PInt 2%Z) = CErr.
+  Proof. vm_compute. repeat split. Qed.
+End Examples.
